@@ -275,6 +275,7 @@ R24 = {
  "C05": "EdfLoadBalancer.ChooseHost returns nil only under size == 0, the only host unhealthy, or firstHealthyHost == nil",
  "C06": "the weighted draw is only measured against clusterWeight values read from the merged table",
  "C09": "the HTTP/1 client raises OnGoAway before the response is handed over",
+ "C10": "a cluster update carries the resource manager's counters over whatever the cluster type",
  "C11": "a relayed response is dequeued only after the transfer socket was dialed",
  "C13": "sdsProvider.update never writes the provider's long-lived secret info",
  "C18": "a header block split across reads is parsed as in one read (the framer state the parse wrote is restored)",
